@@ -469,6 +469,68 @@ def ak_worker(job):
     return acc
 
 
+# ------------------------------------------------------------------ the same key on several lines
+AKM_OPTS = ['', 'from="10.0.0.0/8"', 'from="h.example"', 'from="!10.0.0.1,*"', 'no-pty', 'cert-authority', 'cert-authority,principals="alice"',
+            'cert-authority,principals="b*"', 'cert-authority,from="11.0.0.0/8"', 'cert-authority,principals="alice",from="10.0.0.0/8"']
+
+
+def ak_multi_worker(job):
+    """Files in which one key (or CA key) stands on two or three lines with different restrictions, other keys in
+    between: the lookup returns the FIRST line (in file order) whose key and options all match -- a line that does
+    not admit this client must not hide a later one that does.  Each line carries its own environment="L=<n>"
+    so the line selected can be told."""
+    acc = core.Acc()
+    clients = [('h.example', '10.0.0.1'), ('other.org', '11.0.0.1'), ('bad.example', '10.0.0.2')]
+    princs = [None, ['alice'], ['bob'], []]
+    key = asyncssh.import_public_key(K('k1').export_public_key())
+    blob1, blob2 = ' '.join(pub('k1')), ' '.join(pub('k2'))
+    for opts in job:
+        lines = []
+        for i, o in enumerate(opts):
+            tag = 'environment="L=%d"' % i
+            lines.append(((o + ',' + tag) if o else tag) + ' ' + blob1)
+            if i == 0:
+                lines.append('environment="L=other" ' + blob2)
+        text = '\n'.join(lines) + '\n'
+        try:
+            ak = asyncssh.import_authorized_keys(text)
+        except Exception as exc:        # pylint: disable=broad-except
+            acc.violation('lookup:authorized-keys-import-failed', '%r: %r' % (text[:200], exc), {'kind': 'akm', 'opts': list(opts)})
+            continue
+        for (ch, ca_), pr in itertools.product(clients, princs):
+            for ca in (False, True):
+                if not ca and pr is not None:
+                    continue
+                want = None
+                for i, o in enumerate(opts):
+                    if ak_model(o, ch, ca_, pr, ca) is not None:
+                        want = str(i)
+                        break
+                try:
+                    got = ak.validate(key, ch, ca_, pr, ca=ca)
+                    got = None if got is None else dict(got.get('environment', {})).get('L')
+                except Exception as exc:        # pylint: disable=broad-except
+                    got = 'raised %r' % (exc,)
+                acc.evaluations += 1
+                acc.transitions += 1
+                if got != want:
+                    acc.violation('lookup:authorized-keys-mismatch:line-selected', 'lines %r client=%s/%s principals=%r ca=%s: asyncssh selects line %s, the rules select line %s'
+                                  % (list(opts), ch, ca_, pr, ca, got, want), {'kind': 'akm', 'opts': list(opts)})
+        acc.digests.add(core.digest(('akm', opts)))
+        if len(acc.samples) < 1 and len(opts) == 2 and opts[0].startswith('from') and opts[1] == '':
+            acc.samples.append({'authorized_keys_lines_for_one_key': list(opts)})
+    return acc
+
+
+def ak_multi_jobs(tier):
+    cases = list(itertools.product(AKM_OPTS, repeat=2))
+    if tier == 'thorough':
+        cases += list(itertools.product(AKM_OPTS, repeat=3))
+    else:
+        cases += list(itertools.product(AKM_OPTS, repeat=3))[::7]
+    return [cases[i::32] for i in range(32)]
+
+
 def main(tier, seed):
     t0 = core.now()
     os.makedirs(SCRATCH, exist_ok=True)
@@ -486,6 +548,7 @@ def main(tier, seed):
     else:
         combos += list(itertools.combinations(OPT_ATOMS, 3))[::5]
     acc.merge(core.pmap(ak_worker, [combos[i::32] for i in range(32)]))
+    acc.merge(core.pmap(ak_multi_worker, ak_multi_jobs(tier)))
     shutil.rmtree(SCRATCH, ignore_errors=True)
     rule = ('known_hosts: every host pattern list of 1-2 atoms over a 16-atom alphabet (names, wildcards, negation, '
             'addresses, CIDR, [host]:port, bracketed names) + 3 hashed forms x 3 markers, 1-line files and 2-line '
@@ -493,7 +556,9 @@ def main(tier, seed):
             'wildcard/negation subset; 19 damaged key fields (bad base64, truncated, unknown/mismatched algorithm, '
             'well-framed impossible RSA/EC/DSA/Ed parameters) placed before/between/after good lines in both file '
             'types; authorized_keys: option lists of 0-3 atoms over 19 option atoms (quoting, escaped quotes, repeated '
-            'from/principals/environment/permitopen, no-*, cert-authority, unknown) x 4 clients x 6 principal sets (incl. a certificate naming none)')
+            'from/principals/environment/permitopen, no-*, cert-authority, unknown) x 4 clients x 6 principal sets (incl. a certificate naming none); '
+            'one key or CA key on 2-3 lines with different from=/principals= restrictions and another key in between: the first line '
+            'in file order that admits the client is the one returned')
     return core.finish(PROP, tier, seed, 'exploration', acc, t0, rule,
                        {'known_hosts_files': len(files), 'known_hosts_lookups': n_kh, 'option_lists': len(combos)},
                        assumptions=['numeric address / CIDR patterns are only compared for the default port (their '
@@ -511,6 +576,8 @@ def replay(rep):
         acc = keygen_worker([tuple(tuple(l) for l in r['lines'])])
     elif r['kind'] == 'damaged':
         acc = damaged_worker(0)
+    elif r['kind'] == 'akm':
+        acc = ak_multi_worker([tuple(r['opts'])])
     else:
         acc = ak_worker([tuple(r['combo'])])
     print(json.dumps(acc.violations[:5], indent=1, default=repr))
